@@ -28,6 +28,15 @@ fn main() {
             continue;
         }
         match parts[0] {
+            "sha1" => {
+                use humphrey_ws::verif::SHA1Hash;
+                let m = unhex(parts[1]);
+                let r = std::panic::catch_unwind(|| m.hash());
+                match r {
+                    Ok(d) => println!("{}", d.iter().map(|b| format!("{:02x}", b)).collect::<String>()),
+                    Err(_) => println!("PANIC"),
+                }
+            }
             "wildcard" => {
                 let p = String::from_utf8(unhex(parts[1])).unwrap();
                 let t = String::from_utf8(unhex(parts[2])).unwrap();
